@@ -6,6 +6,7 @@ package vsync
 
 import (
 	"sync"
+	"unsafe"
 
 	"github.com/corazawaf/coraza/v3/internal/verif/vrt"
 )
@@ -26,6 +27,7 @@ func (m *Mutex) Lock() {
 	if s := vrt.Scheduler; s != nil {
 		s.WaitUntil("Mutex.Lock", m.isFree)
 		m.setHeld(true)
+		vrt.NoteLock(uintptr(unsafe.Pointer(m)))
 	}
 	m.mu.Lock()
 }
@@ -37,6 +39,7 @@ func (m *Mutex) TryLock() bool {
 			return false
 		}
 		m.setHeld(true)
+		vrt.NoteLock(uintptr(unsafe.Pointer(m)))
 	}
 	return m.mu.TryLock()
 }
@@ -45,6 +48,7 @@ func (m *Mutex) Unlock() {
 	if s := vrt.Scheduler; s != nil {
 		s.Yield("Mutex.Unlock")
 		m.setHeld(false)
+		vrt.NoteUnlock(uintptr(unsafe.Pointer(m)))
 	}
 	m.mu.Unlock()
 }
@@ -72,6 +76,7 @@ func (m *RWMutex) Lock() {
 	if s := vrt.Scheduler; s != nil {
 		s.WaitUntil("RWMutex.Lock", m.canW)
 		m.set(true, 0)
+		vrt.NoteLock(uintptr(unsafe.Pointer(m)))
 	}
 	m.mu.Lock()
 }
@@ -80,6 +85,7 @@ func (m *RWMutex) Unlock() {
 	if s := vrt.Scheduler; s != nil {
 		s.Yield("RWMutex.Unlock")
 		m.set(false, 0)
+		vrt.NoteUnlock(uintptr(unsafe.Pointer(m)))
 	}
 	m.mu.Unlock()
 }
@@ -88,6 +94,7 @@ func (m *RWMutex) RLock() {
 	if s := vrt.Scheduler; s != nil {
 		s.WaitUntil("RWMutex.RLock", m.canR)
 		m.addR(1)
+		vrt.NoteLock(uintptr(unsafe.Pointer(m)))
 	}
 	m.mu.RLock()
 }
@@ -96,6 +103,7 @@ func (m *RWMutex) RUnlock() {
 	if s := vrt.Scheduler; s != nil {
 		s.Yield("RWMutex.RUnlock")
 		m.addR(-1)
+		vrt.NoteUnlock(uintptr(unsafe.Pointer(m)))
 	}
 	m.mu.RUnlock()
 }
@@ -169,15 +177,21 @@ func y(l string) {
 	}
 }
 
-func (m *Map) Load(k any) (any, bool)                 { y("Map.Load"); return m.m.Load(k) }
-func (m *Map) Store(k, v any)                         { y("Map.Store"); m.m.Store(k, v) }
-func (m *Map) LoadOrStore(k, v any) (any, bool)       { y("Map.LoadOrStore"); return m.m.LoadOrStore(k, v) }
-func (m *Map) LoadAndDelete(k any) (any, bool)        { y("Map.LoadAndDelete"); return m.m.LoadAndDelete(k) }
-func (m *Map) Delete(k any)                           { y("Map.Delete"); m.m.Delete(k) }
-func (m *Map) Swap(k, v any) (any, bool)              { y("Map.Swap"); return m.m.Swap(k, v) }
-func (m *Map) CompareAndSwap(k, o, n any) bool        { y("Map.CompareAndSwap"); return m.m.CompareAndSwap(k, o, n) }
-func (m *Map) CompareAndDelete(k, o any) bool         { y("Map.CompareAndDelete"); return m.m.CompareAndDelete(k, o) }
-func (m *Map) Clear()                                 { y("Map.Clear"); m.m.Clear() }
+func (m *Map) Load(k any) (any, bool)           { y("Map.Load"); return m.m.Load(k) }
+func (m *Map) Store(k, v any)                   { y("Map.Store"); m.m.Store(k, v) }
+func (m *Map) LoadOrStore(k, v any) (any, bool) { y("Map.LoadOrStore"); return m.m.LoadOrStore(k, v) }
+func (m *Map) LoadAndDelete(k any) (any, bool)  { y("Map.LoadAndDelete"); return m.m.LoadAndDelete(k) }
+func (m *Map) Delete(k any)                     { y("Map.Delete"); m.m.Delete(k) }
+func (m *Map) Swap(k, v any) (any, bool)        { y("Map.Swap"); return m.m.Swap(k, v) }
+func (m *Map) CompareAndSwap(k, o, n any) bool {
+	y("Map.CompareAndSwap")
+	return m.m.CompareAndSwap(k, o, n)
+}
+func (m *Map) CompareAndDelete(k, o any) bool {
+	y("Map.CompareAndDelete")
+	return m.m.CompareAndDelete(k, o)
+}
+func (m *Map) Clear() { y("Map.Clear"); m.m.Clear() }
 func (m *Map) Range(f func(k, v any) bool) {
 	y("Map.Range")
 	m.m.Range(func(k, v any) bool {
